@@ -585,6 +585,30 @@ Lemma next_element_total' pj o : cont_ok pj o ->
   okP false (ne_post pj o) (next_element (cont_fuel o) pj o).
 Proof. intros Ho. apply next_element_total; auto. unfold cont_fuel. destruct Ho. lia. Qed.
 
+(* an element handed out never extends backwards (fix F19: esize < 0 is an error) *)
+Lemma next_element_forward : forall fuel pj o o' name el ty,
+  next_element fuel pj o = Ok (o', Some (name, el, ty)) -> i_off el <= i_len el.
+Proof.
+  induction fuel as [|f IH]; intros pj o o' name el ty H; [discriminate|].
+  rewrite next_element_S in H.
+  destruct (c_len o <=? c_off o); [discriminate|].
+  destruct (rd pj (c_len o) (c_off o)) as [v| | |]; cbn [obind] in H; try discriminate.
+  cbv zeta in H.
+  destruct (word_tag v =? TagString)%N.
+  - destruct (c_len o <=? c_off o + 2); [discriminate|].
+    destruct (rd pj (c_len o) (c_off o + 1)) as [len| | |]; cbn [obind] in H; try discriminate.
+    destruct (string_byte_at pj (word_val v) len) as [nm| | |]; cbn [obind] in H; try discriminate.
+    destruct (rd pj (c_len o) (c_off o + 2)) as [v2| | |]; cbn [obind] in H; try discriminate.
+    destruct (calc_next false (c_off o + 2 + 1) (word_val v2) (word_tag v2) <? 0) eqn:Ea; [discriminate|].
+    destruct (c_len o <? c_off o + 2 + 1 + calc_next false (c_off o + 2 + 1) (word_val v2) (word_tag v2)); [discriminate|].
+    destruct (c_off o + 2 + 1 + calc_next false (c_off o + 2 + 1) (word_val v2) (word_tag v2) <? 0); [discriminate|].
+    injection H as _ _ <- _. cbn [i_off i_len]. lia.
+  - destruct (word_tag v =? TagObjectEnd)%N; [discriminate|].
+    destruct (word_tag v =? TagNop)%N; [|discriminate].
+    destruct (word_val v =? 0)%N; [discriminate|].
+    eapply IH; exact H.
+Qed.
+
 (* with any fuel at all: still no Crash *)
 Lemma next_element_no_crash : forall fuel pj o,
   cont_ok pj o -> okP true (ne_post pj o) (next_element fuel pj o).
